@@ -6,6 +6,7 @@ import (
 	"crypto/tls"
 	"encoding/binary"
 	"fmt"
+	"github.com/scionproto/scion/pkg/slayers"
 	"log/slog"
 	"math/rand/v2"
 	"net/netip"
@@ -389,6 +390,16 @@ func init() {
 					}
 					pkt := &peer.SCIONPkt{SrcIA: srcIA, DstIA: lia, SrcHost: srcHost, DstHost: dstHost, SrcPort: sport, DstPort: 10123, Path: pth, Payload: p,
 						FlowID: uint32(seed & 0xfffff)}
+					// extension headers that mean nothing to the time service do not make a request invalid
+					switch seed >> 44 & 7 {
+					case 0:
+						pkt.HBH = []*slayers.HopByHopOption{{OptType: slayers.OptionType(40 + seed>>48&7), OptData: randBytes(rand.New(rand.NewPCG(seed, 9)), int(seed>>52&7))}}
+					case 1:
+						pkt.E2E = []*slayers.EndToEndOption{{OptType: slayers.OptionType(40 + seed>>48&7), OptData: randBytes(rand.New(rand.NewPCG(seed, 9)), int(seed>>52&7))}}
+					case 2:
+						pkt.HBH = []*slayers.HopByHopOption{{OptType: slayers.OptionType(41), OptData: []byte{1, 2}}}
+						pkt.E2E = []*slayers.EndToEndOption{{OptType: slayers.OptionType(42), OptData: []byte{3}}}
+					}
 					dg, err := pkt.Serialize()
 					if err != nil {
 						panic(err)
